@@ -78,7 +78,18 @@ def run(chk):
     surfaces = {}
     for v in prog.variants():
         chk.analysed["variants"] = chk.analysed.get("variants", 0) + 1
-        defined = {f.name for f in v.defined() if f.get("kind") == "function" and f.get("externC") and not f.get("static")}
+        cands = [f for f in v.defined() if f.get("kind") == "function" and f.get("externC") and not f.get("static")]
+        # an inline definition is no export: the compiler emits a (weak) copy only in translation units that use the
+        # function without inlining it, so whether the library carries the symbol depends on optimisation level and callers
+        defined = {f.name for f in cands if not f.get("inline")}
+        inline_only = sorted({f.name for f in cands if f.get("inline")} - defined)
+        pubnames = {f.name for f in api.public_functions(v).values()}
+        for nme in inline_only:
+            if nme in pubnames:
+                f0 = next(f for f in cands if f.name == nme)
+                chk.refuted("R4", "%s has an out-of-line definition in the library" % nme, where=f0.where,
+                            detail="the only definition is 'inline' (in %s): an optimised build inlines every call and emits no symbol, "
+                                   "so C clients and dlsym/FFI users cannot link against it" % f0.file, variant=v.name)
         for u in v.asm_units:
             defined |= set(asm.globals_of(prog.asm_text(u)))
         pub = {f.name for f in api.public_functions(v).values() if f.name in c99fun}
